@@ -382,7 +382,12 @@ func C15_History() {
 	}
 	cur := c
 	for k := 0; k < L; k++ {
-		switch vf.Choice("op", 5) {
+		switch vf.Choice("op", 6) {
+		case 5: // Set with a Go value that has no Tengo counterpart: rejected, nothing changes
+			n := histNames[vf.Choice("bn", 2)]
+			bad := []interface{}{float32(1.5), uint(7), []string{"a"}, struct{}{}, map[int]int{1: 2}}
+			e := cur.Set(n, bad[k%len(bad)])
+			vf.Assert(e != nil, "Set rejects a value that cannot be converted")
 		case 0: // Set
 			n := histNames[vf.Choice("sn", len(histNames))]
 			v := vf.Int64("sv" + string(rune('0'+k)))
